@@ -85,7 +85,11 @@ MULTILINES = [b"text:\nhello\n.", b"text:\n.", b"text: \nA\nB\n.",
               b'text:\n"quoted" [x] ; }\n.', b"text:\nif true { keep; }\n.",
               b"text:\n.x\n.", b"text:\ncost $5\n.", b"text:\r\nA\r\n..B\r\n.",
               # the "text:" line carries a hash comment / trailing blanks, with or without a body
-              b"text:# c\n.", b"text: \t# c\r\n.", b"text:  \n.", b"text:#\n\n."]
+              b"text:# c\n.", b"text: \t# c\r\n.", b"text:  \n.", b"text:#\n\n.",
+              # body lines that nearly are the terminator: a dot followed by blanks, a dot
+              # after a blank, a dot followed by text
+              b"text:\n. \nafter dot-blank\n.", b"text:\n.\t\n.", b"text:\n.\x0c\n.",
+              b"text:\n .\n.", b"text:\r\n. \r\n.\x0b\r\n."]
 
 
 class ValueGen:
